@@ -39,6 +39,28 @@ fn c04_constrains_self() {
     kani::cover!(true, "reached");
 }
 
+/// Reachability probe: requires()/constrains() with a parent that is already assigned false.  The
+/// constructors assert that this never happens (and the repository's unit tests pin that panic), so the
+/// question is whether the encoder can get there; the check answers it with a public-API witness.
+#[kani::proof]
+#[kani::unwind(4)]
+fn c04_probe_parent_false() {
+    let mut tracker = DecisionTracker::default();
+    let parent = VariableId::from_usize(1);
+    let cand = VariableId::from_usize(2);
+    let value: bool = kani::any();
+    let level: u32 = kani::any();
+    kani::assume(level >= 1 && level <= 1000);
+    let _ = tracker.try_add_decision(crate::solver::decision::Decision::new(parent, value, crate::internal::id::ClauseId::install_root()), level);
+    let which: bool = kani::any();
+    if which {
+        let _ = WatchedLiterals::requires(parent, Requirement::Single(VersionSetId(0)), [cand], &tracker);
+    } else {
+        let _ = WatchedLiterals::constrains(parent, cand, VersionSetId(0), &tracker);
+    }
+    kani::cover!(value, "parent installed");
+}
+
 /// forbid_multiple / lock / exclude / root / learnt under what the encoder and analyze() guarantee:
 /// helper variables are fresh (differ from the candidate), locked-out candidates are never the root,
 /// learnt clauses have pairwise distinct variables.
